@@ -23,7 +23,7 @@ def replay_dir(prop):
 
 
 def write_replay(prop, bucket, case, message, seed, tier):
-    d = os.path.join(replay_dir(prop), "found")
+    d = os.path.join(os.environ["VERIF_EVIDENCE_DIR"], "found", prop) if os.environ.get("VERIF_EVIDENCE_DIR") else os.path.join(replay_dir(prop), "found")
     os.makedirs(d, exist_ok=True)
     safe = "".join(ch if ch.isalnum() or ch in "-_." else "_" for ch in bucket)[:80]
     path = os.path.join(d, "%s-%s.json" % (safe, runner.digest(case)))
